@@ -14,12 +14,14 @@
 (* on the implementation and the language version); a literal with the     *)
 (* encoding prefix L, u or U is the code unit itself, never negative:      *)
 (* L'\377' = u'\377' = 255, u up to 0xFFFF, \x takes every hex digit that  *)
-(* follows.                                                                *)
+(* follows; \uXXXX (four hex digits, a universal character name) is the    *)
+(* code point XXXX, which must not be a surrogate nor below 0xA0.          *)
 (* A literal is complete in an accepting mode.                             *)
 (***************************************************************************)
 EXTENDS Integers, Sequences, TLC
 
 CONSTANTS Chars,       \* alphabet: a set of one-character strings
+          UDigits,     \* hexadecimal digits used in universal character names (subset of Chars)
           MaxLen       \* bound on the number of characters
 
 INT_MAX == 2147483647
@@ -57,7 +59,7 @@ NumAccept == {"zero", "dec", "oct", "hex", "bin", "suf"}
 Accepting == mode \in NumAccept \cup {"cdone"}
 \* largest value of a character literal with the given prefix
 CMax(p) == CASE p \in {"", "u8"} -> 127 [] p = "u" -> 65535 [] OTHER -> INT_MAX
-IsChar == mode \in {"pfx", "c0", "cb", "cx0", "cx", "co1", "co2", "co3", "cq", "cdone"}
+IsChar == mode \in {"pfx", "c0", "cb", "cu", "cx0", "cx", "co1", "co2", "co3", "cq", "cdone"}
 Unsigned == \E i \in 1..Len(text) : text[i] \in {"u", "U"} /\ mode = "suf"
 
 Init == text = <<>> /\ mode = "start" /\ base = 10 /\ val = 0 /\ digs = <<>> /\ suf = "" /\ pfx = ""
@@ -106,8 +108,12 @@ Step(c) ==
        [] mode = "cb" ->
             \/ c \in DOMAIN SimpleEsc /\ val' = SimpleEsc[c] /\ mode' = "cq" /\ UNCHANGED <<base, digs, suf>>
             \/ c = "x" /\ mode' = "cx0" /\ base' = 16 /\ UNCHANGED <<val, digs, suf>>
+            \/ c = "u" /\ pfx \in {"L", "u", "U"} /\ mode' = "cu" /\ base' = 16 /\ digs' = <<>>
+               /\ UNCHANGED <<val, suf>>
             \/ IsDig(c, 8) /\ val' = DigVal[c] /\ digs' = <<DigVal[c]>> /\ base' = 8 /\ mode' = "co1"
                /\ UNCHANGED suf
+       [] mode = "cu" -> /\ c \in UDigits /\ Digit(c, IF Len(digs) = 3 THEN "cq" ELSE "cu")
+                         /\ (Len(digs) = 3 => val' >= 160 /\ val' <= CMax(pfx) /\ ~(val' \in 55296..57343))
        [] mode = "cx0" -> Digit(c, "cx") /\ val' <= CMax(pfx)
        [] mode = "cx"  -> (Digit(c, "cx") /\ val' <= CMax(pfx)) \/ (c = "'" /\ To("cdone"))
        [] mode = "co1" -> (Digit(c, "co2") /\ val' <= CMax(pfx)) \/ (c = "'" /\ To("cdone"))
@@ -117,7 +123,8 @@ Step(c) ==
        [] OTHER -> FALSE
 
 \* a character literal may be three characters longer than a number (prefix, two quotes, backslash)
-Next == /\ Len(text) < (IF IsChar THEN MaxLen + 3 ELSE MaxLen)
+\* (a universal character name always gets its four digits and the closing quote)
+Next == /\ Len(text) < (IF IsChar THEN MaxLen + 3 ELSE MaxLen) \/ mode \in {"cu", "cq"}
         /\ \E c \in Chars : Step(c)
 Spec == Init /\ [][Next]_vars
 
@@ -130,7 +137,7 @@ Positional(s, b) == IF s = <<>> THEN 0
                     ELSE s[Len(s)] + b * Positional(SubSeq(s, 1, Len(s) - 1), b)
 
 \* the incrementally computed value is the positional value of the digits read
-HornerOK == mode \in NumAccept \cup {"cx", "co1", "co2", "co3"} => val = Positional(digs, base)
+HornerOK == mode \in NumAccept \cup {"cx", "cu", "co1", "co2", "co3"} => val = Positional(digs, base)
 
 \* a digit separator stands between two digits: never first, last, doubled or next to a prefix
 SepOK ==
